@@ -76,6 +76,42 @@ def defs_of(body, l):
     return out
 
 
+def closure_field(body, pl, depth=4):
+    """a place that projects into a closure environment - `(*_e).{closure}.N..` with _e bound to a closure value created in this body (closure
+    view, inline.flatten_closures) - is the N-th captured operand: returns that operand with the remaining projection, or None"""
+    if depth == 0 or not is_local_op(pl) or not pl['p']:
+        return None
+    idx = None
+    for i, pr in enumerate(pl['p']):
+        m = re.match(r'^\.\{closure\}\.(\d+)$', pr) if isinstance(pr, str) else None
+        if m:
+            idx = (i, int(m.group(1)))
+            break
+    if idx is None or any(x != '*' for x in pl['p'][:idx[0]]):
+        return None
+    # find the closure aggregate the base local is bound to
+    cur = pl['l']
+    for _ in range(6):
+        ds = defs_of(body, cur)
+        if len(ds) != 1 or ds[0][1]['k'] != 'assign':
+            return None
+        rv = ds[0][1]['rv']
+        if rv['k'] == 'agg' and rv.get('ak') == 'closure':
+            if idx[1] >= len(rv['ops']):
+                return None
+            op = rv['ops'][idx[1]]
+            if not is_local_op(op):
+                return op
+            return {'l': op['l'], 'p': list(op['p']) + list(pl['p'][idx[0] + 1:])}
+        if rv['k'] == 'ref' and not rv['pl']['p']:
+            cur = rv['pl']['l']
+        elif rv['k'] in ('use', 'cast') and is_local_op(rv['o']) and not rv['o']['p']:
+            cur = rv['o']['l']
+        else:
+            return None
+    return None
+
+
 def origins(body, o, depth=12, seen=None):
     """follow use/move/cast chains backwards from operand o; returns list of (pos, stmt_or_term) that
     produce the value (non-copy definitions), or [('param', n)] / [('const', o)]."""
@@ -84,6 +120,10 @@ def origins(body, o, depth=12, seen=None):
     if not is_local_op(o):
         return [('const', o)]
     l = o['l']
+    if o['p'] and depth > 0 and getattr(body, 'inlined_ids', None):
+        cf = closure_field(body, o)
+        if cf is not None:
+            return origins(body, cf, depth - 1, seen)
     if o['p']:
         # deref of a local that holds `&place`  ->  that place (+ remaining projection)
         if o['p'][0] == '*' and depth > 0:
@@ -236,6 +276,10 @@ def resolve_place(body, pl, depth=6):
     Deref::deref on such a reference) into the underlying place."""
     if depth == 0 or not is_local_op(pl):
         return pl
+    if pl['p'] and getattr(body, 'inlined_ids', None):
+        cf = closure_field(body, pl)
+        if cf is not None and is_local_op(cf):
+            return resolve_place(body, cf, depth - 1)
     if pl['p'] and pl['p'][0] == '*':
         ds = defs_of(body, pl['l'])
         if len(ds) == 1:
@@ -331,6 +375,10 @@ def deep_sources(body, o, depth=8, seen=None):
     names, callees, fields = set(), set(), set()
     if not is_local_op(o) or depth == 0:
         return names, callees, fields
+    if o['p'] and getattr(body, 'inlined_ids', None):
+        cf = closure_field(body, o)
+        if cf is not None:
+            return deep_sources(body, cf, depth - 1, seen)
     for p in o['p']:
         if p.startswith('.') and not p[1:2].isdigit():
             fields.add(p[1:])
